@@ -9,7 +9,7 @@ From LV Require Import Base.Bytes Base.Sx Model.Obj Model.Writer Model.Parser Mo
   Spec.RefWriter Proofs.SpellingProofs Proofs.LitStringProofs Proofs.SpellingProofsLit
   Model.Loader Proofs.RealProofs Proofs.ObjectRtProofs.
 From LV Require Model.A85 Model.AsciiHex Spec.AsciiHexSpec Proofs.AsciiHexProofs.
-From LV Require Import Proofs.SpellingNumProofs Proofs.SpellingObjProofs Proofs.SpellingFileProofs.
+From LV Require Import Proofs.SpellingNumProofs Proofs.SpellingObjProofs Proofs.SpellingFileProofs Proofs.SpellingProofsLitRaw.
 Local Open Scope N_scope.
 
 (* (1) Cross-reference streams.  For ALL field widths (0 = field absent, any positive width, not all three
@@ -281,8 +281,24 @@ Proof.
   - constructor; [intros [H|[]]; discriminate|]. constructor; [intros []|constructor].
   - repeat split; try reflexivity; try (unfold u32_max, u16_max; lia).
     + exists false, (bs "0"), (bs "5"). repeat split; try reflexivity. discriminate.
-    + right. reflexivity.
 Qed.
+
+(* EVERY spelling of a literal string: as above, and parentheses left raw wherever the style's raw parentheses are
+   balanced (they are then read through the parser's nested_literal_string recursion).  Excluded: the two open
+   findings -- LF spelled as raw CR / CR LF ([no_raw_cr]), raw parentheses nested deeper than MAX_BRACKET = 100
+   ([raw_depth_ok]). *)
+Theorem C02_literal_any_spelling :
+  forall s (st : list lpos) (tc : list eolk) rest fuel,
+    no_raw_cr s st = true -> raw_depth_ok s st = true ->
+    (length (w_literal s st tc ++ rest) <= fuel)%nat ->
+    literal_string fuel (w_literal s st tc ++ rest) = POk s rest.
+Proof. exact literal_any_spelling. Qed.
+
+Theorem C02_example_literal_raw :
+  w_literal (bs "a(b(c)\)d") (default_lit (bs "a(b(c)\)d")) [ELF] = bs "(a(b(c)\134)d\" ++ [x0a] ++ bs ")" /\
+  literal_string 50 (w_literal (bs "a(b(c)\)d") (default_lit (bs "a(b(c)\)d")) [ELF] ++ bs ">>") = POk (bs "a(b(c)\)d") (bs ">>") /\
+  raw_depth_ok (bs "a(b(c)\)d") (default_lit (bs "a(b(c)\)d")) = true.
+Proof. repeat split; vm_compute; reflexivity. Qed.
 
 Definition ex_lit : bytes := [x41; x0a; x28; x5c; x07; x39; x0d].
 Definition ex_lit_style : list lpos :=
@@ -442,6 +458,8 @@ Print Assumptions C02_name_any_spelling.
 Print Assumptions C02_hex_string_any_spelling.
 Print Assumptions C02_integer_any_spelling.
 Print Assumptions C02_literal_any_spelling_partial.
+Print Assumptions C02_literal_any_spelling.
+Print Assumptions C02_example_literal_raw.
 Print Assumptions C02_real_any_spelling.
 Print Assumptions C02_reference_any_spelling.
 Print Assumptions C02_object_any_spelling.
